@@ -299,6 +299,7 @@ func blockReaches(from, to *ssa.BasicBlock) bool {
 func C03(c *Ctx) {
 	c.Note("fingerprint collisions; pruning threshold correctness; snapshot reads themselves (C05/C06); serializability of whole histories")
 	watermarkHoldGroup(c, "K2.watermark-holds-at-doneUntil")
+	failedWriteNoEffect(c, "K1.failed-write-has-no-effect")
 	const r1 = "K4.oracle-critical-section"
 	c.Rule(r1, "in oracle.newCommitTs the conflict check, the commit-timestamp allocation, the append to committedTxns and the intentTable update all execute under oracle.Mutex with no unlock in between; the allocation is dominated by the no-conflict edge; the history append is guarded by detectConflicts only")
 	oracleCritical(c, r1, []string{"conflict"})
